@@ -717,6 +717,42 @@ void __tsan_write2_pc(void *a, void *) { access(a, 2, true, VS_PC); }
 void __tsan_write4_pc(void *a, void *) { access(a, 4, true, VS_PC); }
 void __tsan_write8_pc(void *a, void *) { access(a, 8, true, VS_PC); }
 
+// libc memory functions called by the instrumented objects (redirected by objcopy like the pthread calls): the
+// bytes they touch are accesses of the calling thread; libc itself is not instrumented
+void *vsched_memcpy(void *d, void const *s, unsigned long n)
+{
+  if (n)
+  {
+    access(const_cast<void *>(s), n, false, VS_PC);
+    access(d, n, true, VS_PC);
+  }
+  return std::memcpy(d, s, n);
+}
+void *vsched_memmove(void *d, void const *s, unsigned long n)
+{
+  if (n)
+  {
+    access(const_cast<void *>(s), n, false, VS_PC);
+    access(d, n, true, VS_PC);
+  }
+  return std::memmove(d, s, n);
+}
+void *vsched_memset(void *d, int c, unsigned long n)
+{
+  if (n)
+    access(d, n, true, VS_PC);
+  return std::memset(d, c, n);
+}
+int vsched_memcmp(void const *a, void const *b, unsigned long n)
+{
+  if (n)
+  {
+    access(const_cast<void *>(a), n, false, VS_PC);
+    access(const_cast<void *>(b), n, false, VS_PC);
+  }
+  return std::memcmp(a, b, n);
+}
+
 // ------------------------------------------------------------------ TSan ABI: atomics
 #define VS_ATOMICS(N, T)                                                                                                         \
   T __tsan_atomic##N##_load(T const volatile *a, int mo)                                                                         \
